@@ -253,38 +253,67 @@ META = {
 NOT_APPLICABLE = {}
 
 # Rules added while testing against seeded changes (appended to the texts above).
+MODEL = ("constant propagation through the method bodies on object models (the checker's own evaluator; nothing of the repository is "
+         "imported or run; one model instance per class of construct, see DESIGN 7.8)")
 EXTRA = {
-    "C01": "Also: the lookup has no fallback key (a miss under the state name is a miss); the SAX handler binds each XML "
-           "field to the attribute of the same meaning, aliasing copies in the documented direction, user-supplied files go "
-           "through the same path.",
-    "C02": "Also: the integrality guard comes after every parameter assignment; patches other than PEPTIDE act on a private "
-           "copy of the reference; no chain/residue/atom list is structurally modified while iterated in the terminus code; "
-           "a blank-chain file with one TER record has two chains.",
-    "C03": "Also shares the ingestion rules of C07 (residue identity, first alternate location, every record appended, "
-           "create_residue unfiltered) and patch isolation.",
-    "C04": "The selection procedure is evaluated on the topology model by the guard engine whatever its code shape.",
-    "C05": "Also: the C(i-1)/N(i+1) frame pointers survive an iteration of update_bonds only when the C-N distance is within "
-           "the limit on every path (free tests explored both ways), and the limit lies strictly between the templates' "
-           "bonded C-N length and their nearest 1-3 distance.",
-    "C06": "Also: pKa and pH reach the comparison unmodified (value flow); patch isolation.",
-    "C07": "Also: every ATOM/HETATM record read is appended to a residue (no filter on altLoc, occupancy, element); the record "
-           "type is decided by the record-name columns.",
-    "C08": "Also: every PQR print site forwards --keep-chain to the formatter.",
-    "C09": "Also: waters are removed iff --drop-water; x/y/z/charge/radius occupy one fixed column span on all formatter paths, "
-           "so formatting flags cannot move what column-based consumers read.",
-    "C10": "Also: every atom_site row is visited (full-range loops, no early exit, rows selected by model number only).",
-    "C12": "Also: the integrality guard is a must-pass placed after every parameter assignment; patch isolation.",
-    "C13": "Also: the neighbour query that feeds detection scans at least the bonding limit (cell size >= limit, full pair "
-           "scan); patch isolation.",
-    "C14": "R1/R3 evaluate the key and neighbourhood code by a statement evaluator (shape tolerant); the query itself never "
-           "writes the cell map.",
-    "C15": "Also: dihedral()'s snap-to-planar window acos(1-eps) folds to less than the 0.05 degree tolerance. The Jacobi sweep "
-           "cap is not decided.",
-    "C16": "Also: per-cycle charge updates are computed from the start-of-cycle charges only and applied once; the first of "
-           "equivalent atoms is the one looked up.",
-    "C17": "Running extrema are decided semantically (min takes the lower, max the upper bound on every path).",
-    "C18": "Chunk index emission is interpreted on the code as written (any loop shape); rows have the documented length; the "
-           "reader's per-file state is fresh for every call.",
+    "C01": "Also: the lookup has no fallback key; DAT parser located by content, user-supplied files go through the same parser and names "
+           "parse site; the names handler (startElement/characters/endElement/update_map/find_matching_names) is decided by " + MODEL + ": "
+           "residue alias copies every atom as the same object, patterns match whole names only, $group substitution, atom aliases only for "
+           "existing atoms, no state leaking between blocks. Protonation variants named by the input file (CYM, HIE, ...) are cells of the "
+           "state-name table.",
+    "C02": "Also: the integrality guard comes after every parameter assignment and keeps a bounded tolerance; patches other than PEPTIDE act "
+           "on a private copy; no list is modified while iterated in the terminus code; one TER record means two chains; input-named "
+           "variants get their own charge obligations; helper methods factored out of assign_termini are interpreted in place.",
+    "C03": "Also shares the ingestion rules of C07 (identity, first alternate location, every record appended, reader stops only at end of "
+           "file, pending residue flushed, only further models left out), patch isolation, the ligand block on a model complex (every "
+           "ligand atom printed once, lists partition) and 'hydrogens are stripped only from residue classes that get them rebuilt'; "
+           "loop exits of add_hydrogens are decided on canonical guard sets (closed reasons or warned).",
+    "C04": "The selection procedure is evaluated on the topology model whatever its code shape and must be history free (a memo is reset "
+           "by every membership mutator); Flip caches exactly the atoms its rotation moves at every chain position; no statement turns "
+           "args.debump/args.opt on.",
+    "C05": "Also: the C(i-1)/N(i+1) frame pointers survive update_bonds only across a bond within the limit on every path (free tests "
+           "explored both ways), the limit separates bonded from 1-3 template distances; completing an XH3 group reads the position of "
+           "every hydrogen already present. Coincidence through path-dependent local state (seed C05-d) is not decided.",
+    "C06": "Also: pKa and pH reach the comparison unmodified; rows of different titratable groups never share a key of the pKa table; "
+           "patch isolation.",
+    "C07": "Also: every ATOM/HETATM record read is appended to a residue; the record type is decided by the record-name columns; the "
+           "name tested for 'already present' is the name the atom is filed under.",
+    "C08": "Also: every print site forwards --keep-chain; pdb2pqr's own reader (read_pqr/from_pqr_line) is decided by " + MODEL + " on one "
+           "line per layout the writer emits.",
+    "C09": "Also: waters are removed iff --drop-water; numeric fields occupy one fixed column span on all formatter paths; a formatting "
+           "flag may only select strings (a flag-controlled local must be a string being built); --neutraln/--neutralc are decided by "
+           "evaluating assign_termini on every chain shape with the flag off and on.",
+    "C10": "Also: every atom_site row is visited; `a or b` is forked like a conditional expression by the layout engine; models are handed "
+           "on in order of first appearance (count_models on model rows).",
+    "C11": "Also: mutations through a local alias of a shared object; a list extended by a set; positive controls for both.",
+    "C12": "Also: the integrality guard is a must-pass after every parameter assignment; patch isolation; calls inside the output block "
+           "are judged by their resolved raise sets; the 'remember the failure, raise later' handler idiom is recognised structurally. "
+           "Which inputs are too incomplete to repair is not decided (seed C12-c).",
+    "C13": "Also: update_ss_bridges is decided by " + MODEL + " on a structure with a bridge across chains, a partner the input labels "
+           "CYX, free/SG-less/thiolate cysteines and a pair just beyond the limit, in two residue orders; bridged cells are full and "
+           "neutral at every chain position in every force field that defines them; neighbour-query variants need cell size >= limit.",
+    "C14": "Also: add_cell/remove_cell/get_near_cells are decided by " + MODEL + " on 72 atoms around cell boundaries, zero and far out, "
+           "for every size in use, before and after 25 bracketed moves; every fixed cutoff applied to query results is at most the cell "
+           "size; movers defined on the cell map itself are in the typestate scope.",
+    "C15": "R3/R4 are decided by symbolic evaluation: qtrfit on two symbolic point pairs (Horn identity on the matrix actually handed to "
+           "the diagonaliser; the eigenvector reaches q2mat unmodified on every path), set_dihedral_angle and rotate_tetrahedral on atoms "
+           "with symbolic coordinates (axis, origin, angle, near side fixed, cached torsion re-measured after the move). dihedral()'s "
+           "snap window folds to less than 0.05 degree. The Jacobi sweep cap is not decided.",
+    "C16": "Also: per-cycle updates from start-of-cycle charges only; first of equivalent atoms; the ligand block on a model complex (a "
+           "ligand atom also known to the force field, a water with ligand-like hydrogen names, an ion after the ligand): each ligand "
+           "atom printed once with the MOL2 values, nothing else touched; hydrogens are stripped only where they are rebuilt.",
+    "C17": "Running extrema decided semantically; Psize (parse_lines .. __str__) is decided by " + MODEL + " on a one-atom file, spread atoms "
+           "and a system above the memory ceiling: extrema, charge, counts, enclosure, multigrid-legal counts, the memory figure of the "
+           "report and the per-processor grid.",
+    "C18": "Chunk index emission is interpreted for any loop shape; reader state fresh per call; read_pqr + read_dx + write_cube are decided "
+           "by " + MODEL + ": header, atom block (ATOM and HETATM), value count/order/precision over magnitude classes, second read equals "
+           "first.",
 }
 for _k, _v in EXTRA.items():
     META[_k]["text"] += " " + _v
+    if "constant propagation through the method bodies" in _v or "symbolic evaluation" in _v:
+        META[_k]["technique"] += "; model evaluation by the checker's own interpreter (constant/symbol propagation through method bodies on object models)"
+TRUST_ALPHA = ("Before analysis every module is desugared and its locals are renamed towards the reference naming (alpha-equivalent "
+               "program, sa/alpha.py); renamings applied are listed in the evidence. ")
+for _k in META:
+    META[_k]["note"] = META[_k].get("note", "") + TRUST_ALPHA
